@@ -89,6 +89,12 @@ pub enum Def {
 pub enum EffKind {
     Effect,
     Render,
+    /// `Effect::new_sync`
+    Sync,
+    /// `Effect::new_isomorphic`
+    Isomorphic,
+    /// `Effect::watch(deps, handler, immediate)`: the body is the dependency function, the handler does nothing
+    Watch(bool),
 }
 
 #[derive(Clone)]
@@ -302,6 +308,7 @@ pub struct EffSlot {
     pub node: usize,
     owner: Owner,
     _effect: Option<Effect<reactive_graph::owner::LocalStorage>>,
+    _effect_sync: Option<Effect<reactive_graph::owner::SyncStorage>>,
     render: Option<RenderEffect<i64>>,
     pub alive: bool,
     pub paused: bool,
@@ -396,11 +403,29 @@ impl Case {
             let child = self.owner.child();
             let b = b.clone();
             let sh = self.sh.clone();
-            let (eff, render) = child.with(|| match kind {
-                EffKind::Effect => (Some(Effect::new(move |_: Option<i64>| invoke(&sh, id, &b))), None),
-                EffKind::Render => (None, Some(RenderEffect::new(move |_: Option<i64>| invoke(&sh, id, &b)))),
+            let (eff, eff_sync, render) = child.with(|| match kind {
+                EffKind::Effect => (Some(Effect::new(move |_: Option<i64>| invoke(&sh, id, &b))), None, None),
+                EffKind::Render => (None, None, Some(RenderEffect::new(move |_: Option<i64>| invoke(&sh, id, &b)))),
+                EffKind::Sync => (None, Some(Effect::new_sync(move |_: Option<i64>| invoke(&sh, id, &b))), None),
+                EffKind::Isomorphic => {
+                    (None, Some(Effect::new_isomorphic(move |_: Option<i64>| invoke(&sh, id, &b))), None)
+                }
+                EffKind::Watch(immediate) => (
+                    Some(Effect::watch(move || invoke(&sh, id, &b), |_: &i64, _: Option<&i64>, _: Option<()>| (), immediate)),
+                    None,
+                    None,
+                ),
             });
-            self.effs.push(EffSlot { node: id, owner: child, _effect: eff, render, alive: true, paused: false, paused_at_runs: None });
+            self.effs.push(EffSlot {
+                node: id,
+                owner: child,
+                _effect: eff,
+                _effect_sync: eff_sync,
+                render,
+                alive: true,
+                paused: false,
+                paused_at_runs: None,
+            });
         }
     }
 
@@ -562,7 +587,8 @@ pub fn parse_def(w: &[&str]) -> Option<Def> {
             let e = parse_expr(rest, &mut pos)?;
             (pos == rest.len()).then_some(Def::Memo(e))
         }
-        ["eff", rest @ ..] | ["reff", rest @ ..] => {
+        ["eff", rest @ ..] | ["reff", rest @ ..] | ["seff", rest @ ..] | ["ieff", rest @ ..] | ["weff", rest @ ..]
+        | ["wieff", rest @ ..] => {
             let mut pos = 0;
             let e = parse_expr(rest, &mut pos)?;
             (pos == rest.len()).then_some(Def::Eff(e))
